@@ -65,3 +65,10 @@ func VerifUnescapeHTML(s string) string { return unescapeHTML(s) }
 
 // VerifReadNBytes exposes readNBytes
 func VerifReadNBytes(r io.Reader, n int) ([]byte, error) { return readNBytes(r, n) }
+
+// VerifParseTextWebVTT exposes parseTextWebVTT with an explicit running tag stack
+func VerifParseTextWebVTT(line string, tags []WebVTTTag) (Line, []WebVTTTag) {
+	sa := &StyleAttributes{WebVTTTags: tags}
+	l := parseTextWebVTT(line, sa)
+	return l, sa.WebVTTTags
+}
